@@ -224,3 +224,61 @@ Z = {el: i + 1 for i, el in enumerate(ZTABLE)}
 
 def formfactor_ref(coef, s):
     return sum(coef[i] * math.exp(-coef[i + 4] * s * s) for i in range(4)) + coef[8]
+
+
+# ---------------------------------------------------------------------------- names / structure factors
+
+
+def setting_names(sgdic):
+    """For each of the 237 settings the dictionary names that select it: {(no, cc): [names]}."""
+    out = {}
+    for name, kl in sgdic.items():
+        no = int(kl[2:])
+        cc = "rhombohedral" if (name[0] == "r" and name[-1] == "r") else "standard"
+        out.setdefault((no, cc), []).append(name)
+    return out
+
+
+def dyadic(ops):
+    """True iff every translation component is a multiple of 1/8 (then the 6-digit table values are exact)."""
+    return all((t_i * 8).denominator == 1 for _, t in ops for t_i in t)
+
+
+def p1_structure_factor(h, cell, g_rot, g_trans_float, ops_exact, atoms, disp, ffcoef):
+    """Explicit P1 sum: every distinct image of every atom contributes
+    occ x (f + f' + i f'') x DW x exp(2 pi i h.r).  Which images coincide is decided on exact rationals
+    when the atom carries `pos_exact`, else by rounding at 1e-6; phases use the tabulated float translations."""
+    Gi = recip_metric(cell)
+    hv = np.asarray(h, float)
+    s = math.sqrt(float(hv @ Gi @ hv)) / 2
+    astar = np.sqrt(np.diag(Gi))
+    tot = 0j
+    for at in atoms:
+        f = formfactor_ref(ffcoef[at["el"]], s)
+        d = disp.get(at["el"]) if disp else None
+        if d is not None:
+            f = f + d[0] + 1j * d[1]
+        seen = {}
+        for j, (R, t) in enumerate(ops_exact):
+            if at.get("pos_exact") is not None:
+                p = at["pos_exact"]
+                q = tuple((sum(R[i][k] * p[k] for k in range(3)) + t[i]) % 1 for i in range(3))
+            else:
+                rr = np.array(R) @ np.array(at["pos"], float) + np.array([float(x) for x in t])
+                q = tuple(np.round(np.mod(rr + 5e-7, 1), 6))
+            if q not in seen:
+                seen[q] = j
+        for q, j in seen.items():
+            Rj = np.array(g_rot[j], float)
+            r = Rj @ np.array(at["pos"], float) + np.array(g_trans_float[j], float)
+            if at["adp_type"] == "Uiso":
+                dw = math.exp(-8 * math.pi ** 2 * at["adp"] * s * s)
+            elif at["adp_type"] == "Uani":
+                u = at["adp"]
+                U = np.array([[u[0], u[5], u[4]], [u[5], u[1], u[3]], [u[4], u[3], u[2]]], float)
+                beta = 2 * math.pi ** 2 * np.outer(astar, astar) * U
+                dw = math.exp(-float(hv @ (Rj @ beta @ Rj.T) @ hv))
+            else:
+                dw = 1.0
+            tot += at["occ"] * f * dw * np.exp(2j * math.pi * float(hv @ r))
+    return tot
